@@ -25,6 +25,8 @@ pub struct Rw {
     /// names of lock-guard bindings whose live range is monitored (R27)
     pub guards: HashSet<String>,
     pub live_guards: Vec<String>,
+    /// guards discovered under `guards=*`
+    pub star_guards: Vec<String>,
     /// R18: captured locals of `retain` closures: (name, type text), from the contract's `retain_captures`
     pub retain_captures: Vec<(String, String)>,
     /// R18: lifted closure bodies: (fn name, key pattern, value pattern, body)
@@ -139,6 +141,7 @@ impl Rw {
             noop_methods: HashSet::new(),
             guards: HashSet::new(),
             live_guards: Vec::new(),
+            star_guards: Vec::new(),
             retain_captures: Vec::new(),
             lifted: Vec::new(),
             fn_name: String::new(),
@@ -290,6 +293,20 @@ impl VisitMut for Rw {
                                 self.drains.push((pi.ident.to_string(), (*m.receiver).clone()));
                                 self.log.push("R7 v.drain(..) binding folded into its collect()".into());
                                 continue;
+                            }
+                            if m.method == "drain" && m.args.len() == 1 {
+                                if let Expr::Range(r) = &m.args[0] {
+                                    if let (None, Some(end)) = (&r.start, &r.end) {
+                                        if matches!(r.limits, RangeLimits::HalfOpen(_)) {
+                                            // `v.drain(..n)`: remembered with its bound; consumed by `.collect()`
+                                            let recv = (*m.receiver).clone();
+                                            let end = (**end).clone();
+                                            self.drains.push((pi.ident.to_string(), parse_quote!(__vx_drain_to(#recv, #end))));
+                                            self.log.push("R7 v.drain(..n) binding folded into its collect()".into());
+                                            continue;
+                                        }
+                                    }
+                                }
                             }
                         }
                     }
@@ -452,8 +469,15 @@ impl VisitMut for Rw {
                 if let Stmt::Local(l) = &st {
                     if let Pat::Ident(pi) = &l.pat {
                         let n = pi.ident.to_string();
-                        if self.guards.contains(&n) && l.init.as_ref().map_or(false, |i| i.expr.to_token_stream().to_string().contains("lock")) {
-                            acquired = Some(n);
+                        let is_lock = l.init.as_ref().map_or(false, |i| {
+                            let t = i.expr.to_token_stream().to_string();
+                            t.trim_end().ends_with(". lock () . await") || t.trim_end().ends_with(". lock ()")
+                        });
+                        if is_lock && (self.guards.contains(&n) || self.guards.contains("*")) {
+                            acquired = Some(n.clone());
+                            if self.guards.contains("*") && !self.star_guards.contains(&n) {
+                                self.star_guards.push(n);
+                            }
                         }
                     }
                 }
@@ -461,7 +485,7 @@ impl VisitMut for Rw {
                 if let Stmt::Expr(Expr::Call(c), Some(_)) = &st {
                     if c.func.to_token_stream().to_string() == "drop" && c.args.len() == 1 {
                         let a = c.args[0].to_token_stream().to_string();
-                        if self.guards.contains(&a) {
+                        if self.guards.contains(&a) || self.star_guards.contains(&a) {
                             released = Some(a);
                         }
                     }
@@ -738,6 +762,13 @@ impl VisitMut for Rw {
                 } else if name == "collect" && m.args.is_empty() && matches!(&*m.receiver, Expr::Path(p) if p.path.get_ident().map_or(false, |i| self.drains.iter().any(|(n, _)| *n == i.to_string()))) {
                     let id = if let Expr::Path(p) = &*m.receiver { p.path.get_ident().unwrap().to_string() } else { unreachable!() };
                     let recv = self.drains.iter().find(|(n, _)| *n == id).unwrap().1.clone();
+                    if let Expr::Call(c) = &recv {
+                        if c.func.to_token_stream().to_string() == "__vx_drain_to" {
+                            let (v, n) = (c.args[0].clone(), c.args[1].clone());
+                            return_some_drain_to(e, v, n);
+                            return;
+                        }
+                    }
                     Some(parse_quote!(vx_vec_take_all(&mut #recv)))
                 } else if name == "and_then" && m.args.len() == 1 && matches!(&m.args[0], Expr::Closure(c) if c.inputs.len() == 1)
                     && matches!(&*m.receiver, Expr::MethodCall(r) if r.method == "as_mut" || r.method == "as_ref" || r.method == "take") {
@@ -1092,6 +1123,10 @@ fn for_iter_shape(e: &Expr) -> Option<(Expr, bool, bool)> {
         }
     }
     None
+}
+
+fn return_some_drain_to(e: &mut Expr, v: Expr, n: Expr) {
+    *e = parse_quote!(vx_vec_take_front(&mut #v, #n));
 }
 
 fn is_logging_call(c: &ExprCall) -> bool {
